@@ -168,7 +168,7 @@ def unit_many(a):
 # ------------------------------------------------------------------ (c') systematic fault combinations
 BLOCKS = {
     "step": ["  Given x"], "table-ok": ["   | a | b |", "   | c | d |"], "table-ragged": ["   | a | b |", "   | c |"], "tag-ok": [" @ok"], "tag-bad": [" @bad tag"],
-    "tag-bad2": ["  @x @y z"], "tag-space": [" @ ok @\tfine"], "tag-space-bad": ["@ a b"], "garbage": ["garbage"], "scenario": [" Scenario: s"], "examples": ["  Examples:"], "outline": [" Scenario Outline: o"], "comment": [" # c"],
+    "tag-bad2": ["  @x @y z"], "tag-space": [" @ ok @\tfine"], "tag-space-bad": ["@ a b"], "tag-glued-bad": [" @smoke test@wip"], "garbage": ["garbage"], "scenario": [" Scenario: s"], "examples": ["  Examples:"], "outline": [" Scenario Outline: o"], "comment": [" # c"],
     "blank": [""], "doc-open": ['   """'], "lang-bad": ["#language: xx"], "rule": [" Rule: r"], "background": [" Background:"], "feature": ["Feature: again"],
 }
 BLOCK_NAMES = sorted(BLOCKS)
@@ -225,6 +225,43 @@ def unit_quoted(a):
     return stats
 
 
+# ------------------------------------------------------------------ tag lines, exhaustively
+def check_tagline(case, stats):
+    from vlib.refs import TagError, ref_tags
+    line = case["line"]
+    try:
+        want = ("tags", ref_tags(line + "\n"))
+    except TagError as e:
+        want = ("error", e.column)
+    try:
+        got = ("tags", [(c["text"], c["column"]) for c in gh.GherkinLine(line + "\n", 3).tags])
+    except gh.ParserException as e:
+        got = ("error", e.location.get("column"))
+        if e.location.get("line") != 3 or str(e) != "(3:%d): A tag may not contain whitespace" % e.location.get("column"):
+            raise Violation(case, "tag line %r: error %r with location %r" % (line, str(e), e.location))
+    stats.case(line, line.count("@") >= 2 and (" " in line.strip() or "#" in line), sample=case, labels=[want[0]])
+    if got != want:
+        raise Violation(case, "tag line %r: %r, expected %r" % (line, got, want))
+
+
+def unit_taglines(a):
+    import itertools
+    stats = Stats()
+
+    def gen():
+        n = 0
+        for L in range(1, a["L"] + 1):
+            for tup in itertools.product("@# ab\t", repeat=L):
+                line = "".join(tup)
+                if not line.lstrip().startswith("@"):
+                    continue
+                n += 1
+                if n % a["nshards"] == a["shard"]:
+                    yield {"sub": "tagline", "line": line}
+    sweep(stats, gen(), check_tagline)
+    return stats
+
+
 # ------------------------------------------------------------------ (d) bad corpus
 def check_bad(case, stats):
     f = os.path.join(REPO, "testdata", "bad", case["file"])
@@ -278,7 +315,7 @@ def check_expected(case, stats):
 
 
 def replay(case, stats):
-    return {"text": check_text, "bad": check_bad, "expected": check_expected}[case["sub"]](case, stats)
+    return {"text": check_text, "bad": check_bad, "expected": check_expected, "tagline": check_tagline}[case["sub"]](case, stats)
 
 
 def run(ctx):
@@ -292,6 +329,7 @@ def run(ctx):
     ns = 16
     ctx.units("fault-combinations", unit_combos, [{"lengths": [1, 2, 3, 4] if q else [1, 2, 3, 4, 5], "sampled_length": 4 if q else 5, "sample": 2 if q else 3, "seed": ctx.seed,
                                                    "shard": i, "nshards": ns} for i in range(ns)], procs=ns)
+    ctx.units("tag-lines-exhaustive", unit_taglines, [{"L": 7 if q else 8, "shard": i, "nshards": 16} for i in range(16)], procs=16)
     ctx.units("quoted-messages", unit_quoted, [{}])
     ctx.units("many-faults", unit_many, [{"n": 225 if q else 2000, "seed": ctx.seed, "shard": i} for i in range(8 if q else 16)], procs=16)
     ctx.exhaustive = False
